@@ -209,18 +209,18 @@ end
 theorem preorder_head (n : Node) (c : Ctx) : ∃ t, preorder n c = (n, c) :: t := by
   cases n <;> simp [preorder]
 
-variable (mt : Matcher) (dsc : Desc)
+variable (mt : Matcher) (dsc : Desc) (rt : Node)
 
 /-- A step segment does not look at the following segments. -/
 theorem stepSeg_children (s : ESeg) (rest : List ESeg) (n : Node) (c : Ctx)
     (h1 : s ≠ .matchAll) (h2 : s ≠ .traverse) :
-    stepSeg mt dsc s rest true n c = children mt dsc s n c := by
+    stepSeg mt dsc rt s rest true n c = children mt dsc rt s n c := by
   cases s <;> simp_all [stepSeg, children]
 
 /-- `traverse_lists=False` only switches off the two ways of entering a list. -/
 theorem stepSeg_tl_false (s : ESeg) (rest : List ESeg) (n : Node) (c : Ctx) :
-    stepSeg mt dsc s rest false n c
-      = if direct s n then stepSeg mt dsc s rest true n c else Gen.nil := by
+    stepSeg mt dsc rt s rest false n c
+      = if direct s n then stepSeg mt dsc rt s rest true n c else Gen.nil := by
   cases s with
   | key k =>
     cases n with
@@ -442,7 +442,7 @@ theorem noCrash_sliceStep (lo hi : Str) (n : Node) (c : Ctx) : (sliceStep lo hi 
 theorem noCrash_anchorStep (a : Str) (n : Node) (c : Ctx) : (anchorStep a n c).NoCrash :=
   noCrash_ofList _
 
-variable {mt : Matcher} {dsc : Desc}
+variable {mt : Matcher} {dsc : Desc} {rt : Node}
 
 theorem noCrash_yieldIf (hmt : MtSafe mt) (inv : Bool) (m : Method) (n : Node) (t : Str) (x : NC) :
     (yieldIf inv (mt m n t) x).NoCrash := by
@@ -611,13 +611,18 @@ theorem noCrash_walk {f : Node → Ctx → Gen NC} (hf : ∀ n c, (f n c).NoCras
   rw [walk_eq]
   exact noCrash_bindList _ (fun x _ => hf x.1 x.2)
 
+/-- The keyword segment `s` (if it is one) never ends in a crash outcome, at any node. -/
+def KwOk (rt : Node) (s : ESeg) : Prop :=
+  ∀ inv k p, s = .keyword inv k p → ∀ n c, (kwStep rt inv k p n c).NoCrash
+
 /-- Every handler of the dispatcher ends without a crash outcome. -/
 theorem noCrash_stepSeg (hmt : MtSafe mt) (hd : DscSafe dsc) :
-    ∀ (rest : List ESeg) (s : ESeg) (tl : Bool) (n : Node) (c : Ctx), (stepSeg mt dsc s rest tl n c).NoCrash := by
+    ∀ (rest : List ESeg) (s : ESeg) (tl : Bool) (n : Node) (c : Ctx), KwOk rt s → (∀ s' ∈ rest, KwOk rt s') →
+      (stepSeg mt dsc rt s rest tl n c).NoCrash := by
   intro rest
   induction rest with
   | nil =>
-    intro s tl n c
+    intro s tl n c hk _
     cases s <;> simp only [stepSeg]
     · exact noCrash_map _ (noCrash_keyStep _ _ _ _)
     · exact noCrash_map _ (noCrash_indexStep _ _ _)
@@ -626,24 +631,26 @@ theorem noCrash_stepSeg (hmt : MtSafe mt) (hd : DscSafe dsc) :
     · exact noCrash_map _ (noCrash_searchStep hmt hd _ _ _ _ _ _ _)
     · exact noCrash_ofList _
     · exact noCrash_map _ (noCrash_walk noCrash_leafAt _ _)
-    · exact noCrash_fail rfl
+    · exact noCrash_map _ (hk _ _ _ rfl _ _)
     · exact noCrash_fail rfl
     · exact noCrash_fail rfl
   | cons nxt rest' ih =>
-    intro s tl n c
+    intro s tl n c hk hr
+    have hn : KwOk rt nxt := hr nxt (by simp)
+    have hr' : ∀ s' ∈ rest', KwOk rt s' := fun s' hs' => hr s' (by simp [hs'])
     cases s <;> simp only [stepSeg]
     · exact noCrash_map _ (noCrash_keyStep _ _ _ _)
     · exact noCrash_map _ (noCrash_indexStep _ _ _)
     · exact noCrash_sliceStep _ _ _ _
     · exact noCrash_map _ (noCrash_anchorStep _ _ _)
     · exact noCrash_map _ (noCrash_searchStep hmt hd _ _ _ _ _ _ _)
-    · exact noCrash_map _ (noCrash_filterFirst _ (fun x _ => ih nxt true x.1 x.2))
+    · exact noCrash_map _ (noCrash_filterFirst _ (fun x _ => ih nxt true x.1 x.2 hn hr'))
     · refine noCrash_map _ (noCrash_walk (fun m cm => noCrash_ifAny _ ?_) _ _)
       unfold recursionGuard
       split
       · exact noCrash_fail rfl
-      · exact ih nxt false m cm
-    · exact noCrash_fail rfl
+      · exact ih nxt false m cm hn hr'
+    · exact noCrash_map _ (hk _ _ _ rfl _ _)
     · exact noCrash_fail rfl
     · exact noCrash_fail rfl
 
@@ -655,33 +662,33 @@ theorem noCrash_stepVirt (seg : ESeg) (items : List NC) : (stepVirt seg items).N
     · exact noCrash_fail rfl
   · exact noCrash_fail rfl
 
-theorem noCrash_stepRes (hmt : MtSafe mt) (hd : DscSafe dsc) (s : ESeg) (rest : List ESeg) (r : Res) :
-    (stepRes mt dsc s rest r).NoCrash := by
+theorem noCrash_stepRes (hmt : MtSafe mt) (hd : DscSafe dsc) (s : ESeg) (rest : List ESeg) (r : Res)
+    (hk : ∀ s' ∈ s :: rest, KwOk rt s') : (stepRes mt dsc rt s rest r).NoCrash := by
   cases r with
-  | real nc => exact noCrash_stepSeg hmt hd rest s true nc.1 nc.2
+  | real nc => exact noCrash_stepSeg hmt hd rest s true nc.1 nc.2 (hk s (by simp)) (fun s' hs' => hk s' (by simp [hs']))
   | virt items => exact noCrash_stepVirt s items
 
 theorem noCrash_required (hmt : MtSafe mt) (hd : DscSafe dsc) :
-    ∀ (segs : List ESeg) (r : Res), (required mt dsc segs r).NoCrash := by
+    ∀ (segs : List ESeg), (∀ s ∈ segs, KwOk rt s) → ∀ (r : Res), (required mt dsc rt segs r).NoCrash := by
   intro segs
   induction segs with
-  | nil => intro r; exact noCrash_one r
+  | nil => intro _ r; exact noCrash_one r
   | cons s rest ih =>
-    intro r
-    exact noCrash_bind (noCrash_stepRes hmt hd s rest r) ih
+    intro hk r
+    exact noCrash_bind (noCrash_stepRes hmt hd s rest r hk) (ih (fun s' hs' => hk s' (by simp [hs'])))
 
 theorem noCrash_optional (hmt : MtSafe mt) (hd : DscSafe dsc) :
-    ∀ (segs : List ESeg) (r : Res), (Eval.optional mt dsc segs r).NoCrash := by
+    ∀ (segs : List ESeg), (∀ s ∈ segs, KwOk rt s) → ∀ (r : Res), (Eval.optional mt dsc rt segs r).NoCrash := by
   intro segs
   induction segs with
-  | nil => intro r; exact noCrash_one r
+  | nil => intro _ r; exact noCrash_one r
   | cons s rest ih =>
-    intro r
+    intro hk r
     simp only [Eval.optional]
-    refine noCrash_append (noCrash_bind (noCrash_stepRes hmt hd s rest r) (fun x => ?_)) ?_
+    refine noCrash_append (noCrash_bind (noCrash_stepRes hmt hd s rest r hk) (fun x => ?_)) ?_
     · split
       · exact noCrash_one _
-      · exact ih x
+      · exact ih (fun s' hs' => hk s' (by simp [hs'])) x
     · split
       · exact noCrash_fail rfl
       · exact noCrash_nil
@@ -690,12 +697,14 @@ end Eval
 
 theorem dscSafe_none : DscSafe Desc.none := fun _ _ _ => Gen.noCrash_fail rfl
 
-theorem dscSafe_ofParser {mt : Matcher} (hmt : MtSafe mt) (pa : Str → Except Err (List ESeg))
-    (hpa : ∀ a e, pa a = .error e → e.isCrash = false) : DscSafe (Desc.ofParser mt pa) := by
+theorem dscSafe_ofParser {mt : Matcher} {rt : Node} (hmt : MtSafe mt) (pa : Str → Except Err (List ESeg))
+    (hpa : ∀ a e, pa a = .error e → e.isCrash = false)
+    (hk : ∀ a segs, pa a = .ok segs → ∀ s ∈ segs, Eval.KwOk rt s) : DscSafe (Desc.ofParser mt rt pa) := by
   intro a n c
   unfold Desc.ofParser
   split
-  · exact Eval.noCrash_required hmt dscSafe_none _ _
+  · rename_i segs hs
+    exact Eval.noCrash_required hmt dscSafe_none _ (hk a segs hs) _
   · rename_i e he
     exact Gen.noCrash_fail (hpa a e he)
 
